@@ -505,14 +505,22 @@ func emitSync(o *Out, st *updState) {
 	o.Emit("upd.sync "+vx.Value(st.live.AsValue())+" "+encManaged(st.managers), func() string { return "ok" })
 }
 
-// distinctVersions: the versions visited by addBackOwnedItems for this request
-func distinctVersions(m fieldpath.ManagedFields, mgr string, ver fieldpath.APIVersion) int {
+// orderDependentVersions: the number of versions addBackOwnedItems visits in Go map order for this
+// request, i.e. the versions of the new record and of the other managers except the pruned version
+// (the applier's previous one), which is always visited first. With two or more of them the result
+// can depend on the order (finding D10).
+func orderDependentVersions(m fieldpath.ManagedFields, mgr string, ver fieldpath.APIVersion) int {
+	last, had := m[mgr]
+	if !had {
+		return 0
+	}
 	seen := map[fieldpath.APIVersion]bool{ver: true}
 	for k, vs := range m {
 		if k != mgr {
 			seen[vs.APIVersion()] = true
 		}
 	}
+	delete(seen, last.APIVersion())
 	return len(seen)
 }
 
@@ -624,7 +632,7 @@ func stepApply(o *Out, c *typCtx, up *merge.Updater, ig ignoreCfg, st *updState,
 				return "_ " + encManagedBytes(managers)
 			}
 			return vx.Value(newObj.AsValue()) + " " + encManagedBytes(managers)
-		}(), func() bool { _, had := pre[mgr]; return had && distinctVersions(st.managers, mgr, ver) >= 3 }())
+		}(), orderDependentVersions(st.managers, mgr, ver) >= 2)
 		result := newObj
 		if result == nil {
 			result = st.live
@@ -821,7 +829,7 @@ func judgeConflicts(o *Out, op string, c *typCtx, ig ignoreCfg, st *updState, cf
 		return
 	}
 	// unforced succeeded
-	if _, had := st.managers[mgr]; had && distinctVersions(st.managers, mgr, ver) >= 3 {
+	if orderDependentVersions(st.managers, mgr, ver) >= 2 {
 		// two separate calls may visit the versions in different orders (finding D10, reported under C09):
 		// comparing them with each other is not meaningful
 		return
